@@ -5,8 +5,8 @@ CONSTANTS
   Variant = "intended"
   Kinds = {"mft", "mftn", "ta", "tah", "notify"}
   Mode = "near"
-  HostsR = {"h.test", "g.test", "h.test."}
-  HostsH = {"h.test", "g.test", "h.test.", "..", ""}
+  HostsR = {"h.test", "h.test."}
+  HostsH = {"h.test", "h.test.", "..", ""}
   HCases = {"lower", "mixed"}
   SCases = {"lower"}
   Ports = {"", "873"}
